@@ -87,6 +87,14 @@ def run(ctx):
     out.corr_errors = errs
     for i in bad[:10]:
         out.disagreements.append({'pair': metas[i], 'obligation': 'check_equiv rejected the two emitted systems'})
+        # failing-input search: solve exactly this pair on the implementation
+        try:
+            why = oracle(metas[i]['prog'], metas[i]['perm'])
+        except Exception as e:  # noqa
+            why = 'build/solve raises %r' % (e,)
+        if why:
+            out.failures.append({'key': 'order:series-differ', 'what': 'declaration order changes the result: ' + why,
+                                 'replay': {'kind': 'pair', 'prog': metas[i]['prog'], 'perm': metas[i]['perm']}})
     out.evaluations = len(cases)
     out.nontrivial = len(seen)
     out.samples = [{'base_order': [s['id'] for s in metas[0]['prog']['steps'] if s['kind'] == 'sector'],
